@@ -287,8 +287,16 @@ func c35run(c *runner.Ctx) runner.Result {
 				is.Status, is.Finding = "violation", ""
 			}
 		}
+		if is.Status == "violation" && raced {
+			// the late request ran FlushToWAL by itself, unsynchronised with the WAL loop's final flush and
+			// checkpoint (both may even write the same transaction's primary records): whatever the two
+			// produce together - lost, duplicated or half-written records - is the listed defect
+			is.Status, is.Finding = "known", "F-SHUTRACE"
+		}
 		if is.Status == "violation" {
-			is.Witness = wit()
+			w := wit().(map[string]interface{})
+			w["marks"] = fmt.Sprint(rec.MarkPos)
+			is.Witness = w
 		}
 		res.Issues = append(res.Issues, is)
 	}
